@@ -12,6 +12,7 @@ import (
 	"sync"
 	"sync/atomic"
 	"time"
+	"unicode/utf8"
 
 	"github.com/ash2k/stager/wait"
 	"github.com/cenkalti/backoff"
@@ -449,8 +450,71 @@ func translateToProtobufV2(metricMap *gostatsd.MetricMap) *pb.RawMessageV2 {
 	return &pbMetricMap
 }
 
+// validUTF8MetricMap returns metricMap unless it holds a string that is not valid UTF-8. proto3
+// strings must be valid UTF-8, so a single such name, tag, source or set member makes Marshal fail
+// for the whole message, which would discard every other series of the flush with it. In that case
+// a copy is returned in which invalid bytes are replaced by U+FFFD; series that become equal are merged.
+func validUTF8MetricMap(metricMap *gostatsd.MetricMap) *gostatsd.MetricMap {
+	valid := true
+	check := func(metricName, tagsKey string, source gostatsd.Source, tags gostatsd.Tags) {
+		valid = valid && utf8.ValidString(metricName) && utf8.ValidString(tagsKey) && utf8.ValidString(string(source))
+		for _, tag := range tags {
+			valid = valid && utf8.ValidString(tag)
+		}
+	}
+	metricMap.Counters.Each(func(n, k string, c gostatsd.Counter) { check(n, k, c.Source, c.Tags) })
+	metricMap.Gauges.Each(func(n, k string, g gostatsd.Gauge) { check(n, k, g.Source, g.Tags) })
+	metricMap.Timers.Each(func(n, k string, t gostatsd.Timer) { check(n, k, t.Source, t.Tags) })
+	metricMap.Sets.Each(func(n, k string, s gostatsd.Set) {
+		check(n, k, s.Source, s.Tags)
+		for v := range s.Values {
+			valid = valid && utf8.ValidString(v)
+		}
+	})
+	if valid {
+		return metricMap
+	}
+
+	fix := func(s string) string { return strings.ToValidUTF8(s, "\uFFFD") }
+	fixTags := func(source gostatsd.Source, tags gostatsd.Tags) (gostatsd.Source, gostatsd.Tags, string) {
+		fixed := make(gostatsd.Tags, len(tags))
+		for i, tag := range tags {
+			fixed[i] = fix(tag)
+		}
+		source = gostatsd.Source(fix(string(source)))
+		return source, fixed, gostatsd.FormatTagsKey(source, fixed)
+	}
+	out := gostatsd.NewMetricMap(metricMap.Forwarded)
+	metricMap.Counters.Each(func(n, _ string, c gostatsd.Counter) {
+		var k string
+		c.Source, c.Tags, k = fixTags(c.Source, c.Tags)
+		out.MergeCounter(fix(n), k, c)
+	})
+	metricMap.Gauges.Each(func(n, _ string, g gostatsd.Gauge) {
+		var k string
+		g.Source, g.Tags, k = fixTags(g.Source, g.Tags)
+		out.MergeGauge(fix(n), k, g)
+	})
+	metricMap.Timers.Each(func(n, _ string, t gostatsd.Timer) {
+		var k string
+		t.Source, t.Tags, k = fixTags(t.Source, t.Tags)
+		out.MergeTimer(fix(n), k, t)
+	})
+	metricMap.Sets.Each(func(n, _ string, s gostatsd.Set) {
+		var k string
+		s.Source, s.Tags, k = fixTags(s.Source, s.Tags)
+		values := make(map[string]struct{}, len(s.Values))
+		for v := range s.Values {
+			values[fix(v)] = struct{}{}
+		}
+		s.Values = values
+		out.MergeSet(fix(n), k, s)
+	})
+	return out
+}
+
 func (hfh *HttpForwarderHandlerV2) postMetrics(ctx context.Context, metricMap *gostatsd.MetricMap, dynHeaderTags string, batchId uint64) {
-	message := translateToProtobufV2(metricMap)
+	message := translateToProtobufV2(validUTF8MetricMap(metricMap))
 	hfh.post(ctx, message, dynHeaderTags, batchId, "metrics", "/v2/raw")
 }
 
